@@ -1,6 +1,6 @@
 import SeqVerif.Base.Proto
 import SeqVerif.Model.PatternGlob
-import SeqVerif.Model.PatternSpec
+import SeqVerif.Model.PatternSpecWith
 /-!
 Driver for C13.  Byte strings: hex, `_` = empty.  Lists: `,`-separated, `-` = empty list.
 Terms: `*` or `T<hex>` (`T_` = empty text).  Token: `L/<terms>` or `R/<from>/<to>/<incFrom><incTo>` with an end
@@ -13,6 +13,7 @@ Terms: `*` or `T<hex>` (`T_` = empty text).  Token: `L/<terms>` or `R/<from>/<to
   check <terms> <token> <narrowed 0|1>       -> ok <0|1> | panic      (literalSearch / wildcardSearch .check)
   glob <terms> <token>                       -> ok <0|1>              (declarative matcher globB)
   specleaf <token> <value>                   -> ok <0|1>              (SV.Spec.Leaf.valMatch of the shared Spec)
+  specleafw <token> <value> num=...          -> ok <0|1>              (SV.Spec.Leaf.valMatchWith, reading = the oracle table)
   wf <terms>                                 -> ok <0|1>              (hypothesis WF of c13_wildcard_iff_glob)
   rcheck <R/...> <token> num=...             -> ok <n|t> <0|1>        (n = numeric search chosen, t = text)
   search <token> <ordered> <base> <dict> num=...   -> ok <tids> | panic
@@ -106,6 +107,10 @@ def step (line : String) : String :=
     match token? tk, bytes? v with
     | some tk, some v => "ok " ++ fmtBool ((specLeaf [] tk).valMatch v)
     | _, _ => "bad-op"
+  | ["specleafw", tk, v, num] =>
+    match token? tk, bytes? v, numTable? num with
+    | some tk, some v, some tab => "ok " ++ fmtBool ((specLeaf [] tk).valMatchWith (mkPf tab) v)
+    | _, _, _ => "bad-op"
   | ["wf", ts] =>
     match terms? ts with
     | some ts => "ok " ++ fmtBool (wfB ts)
